@@ -24,6 +24,7 @@ func init() {
 var entry32 = []string{"ReadFrom", "FromBuffer", "FromUnsafeBytes", "UnmarshalBinary", "FromBase64", "FrozenView", "MustReadFrom"}
 
 type c10Case struct {
+	Want   [][2]uint16 // when non-nil: the runs a spec-valid encoding holds; a successful decode must yield exactly them
 	Name   string
 	Data   []byte
 	Frozen bool
@@ -109,6 +110,48 @@ func illegalGrammar() []c10Case {
 	port("run covering everything twice", false, run(0, [2]uint16{0, 65535}, [2]uint16{0, 65535}))
 	port("run chunk, declared cardinality differs", false, spec.Chunk{Key: 0, Kind: spec.KRun, Runs: [][2]uint16{{10, 5}}, Card: 100})
 	port("runs, 4 chunks with unsorted keys", false, run(9, [2]uint16{1, 1}), arr(2, 1), run(1, [2]uint16{1, 1}), arr(0, 1))
+	// every list of 2 runs over an endpoint alphabet (and of 3 over a smaller one), at key 0 and key 7:
+	// sorted or not, overlapping, adjacent, equal, touching 65535 - the valid ones must decode exactly
+	runsOver := func(e []uint16) [][2]uint16 {
+		var rs [][2]uint16
+		for i, a := range e {
+			for _, b := range e[i:] {
+				rs = append(rs, [2]uint16{a, b - a})
+			}
+		}
+		return rs
+	}
+	validRuns := func(l [][2]uint16) bool {
+		for i := range l {
+			if i > 0 && int(l[i][0]) <= int(l[i-1][0])+int(l[i-1][1])+1 {
+				return false
+			}
+		}
+		return true
+	}
+	addRunList := func(key uint16, l [][2]uint16) {
+		var want [][2]uint16
+		if validRuns(l) {
+			want = l
+		}
+		name := fmt.Sprintf("run list %v at key %d", l, key)
+		out = append(out, c10Case{Name: "portable " + name, Data: spec.EncodePortable([]spec.Chunk{run(key, l...)}, false), Want: want})
+		out = append(out, c10Case{Name: "frozen " + name, Data: spec.EncodeFrozen([]spec.Chunk{run(key, l...)}), Frozen: true, Want: want})
+	}
+	r2 := runsOver([]uint16{0, 1, 100, 200, 300, 65534, 65535})
+	for _, a := range r2 {
+		for _, b := range r2 {
+			addRunList(0, [][2]uint16{a, b})
+		}
+	}
+	r3 := runsOver([]uint16{0, 100, 200, 65535})
+	for _, a := range r3 {
+		for _, b := range r3 {
+			for _, c := range r3 {
+				addRunList(7, [][2]uint16{a, b, c})
+			}
+		}
+	}
 	// field level edits on a valid 2-chunk stream
 	base := spec.EncodePortable([]spec.Chunk{arr(1, 5, 6, 7), arr(2, 9)}, false)
 	edit := func(name string, f func(b []byte) []byte) {
@@ -441,6 +484,20 @@ func c10One(c c10Case, data []byte, stage *string, battery, deep bool) string {
 	}
 	if c.Prefix && c.Entry != 5 {
 		return fmt.Sprintf("VIOL %s accepts a proper prefix of a valid portable stream [%s]", entry32[c.Entry], c.Name)
+	}
+	if c.Want != nil {
+		// a spec-valid encoding: it must be read as exactly the set it encodes
+		want := model.New32()
+		for _, r := range c.Want {
+			want.AddRange(uint64(r[0]), uint64(r[0])+uint64(r[1])+1)
+		}
+		got := model.New32()
+		for _, v := range rb.ToArray() {
+			got.Add(v & 0xFFFF)
+		}
+		if !got.Equal(want) {
+			return fmt.Sprintf("VIOL %s reads a spec-valid run list as a different set: %s [%s]", entry32[c.Entry], diff32(got, want), c.Name)
+		}
 	}
 	*stage = "validating"
 	if rb.Validate() != nil {
